@@ -56,7 +56,7 @@ PROPS = {
     "C08": {
         "engine": "pd6",
         "tests": [{"name": "TestC08", "quick": {"checks": 8000, "shards": 3}, "thorough": {"checks": 150000, "shards": 16}}],
-        "rule": "rapid draws an IPv6 pool (/32../120, 1..64 [thorough ..1024] blocks), 1..4 clients (DUID-LL/LLT/EN/UUID/opaque, distinct raw ids) and a history of 1..12 [thorough ..30] messages of every supported type, direct or relayed (depth 1..2), each with 0..3 IA_PD carrying 0..3 IAPrefix hints (none, wire length 0, length-only, free block, held by self, held by another client, any block, out of pool, longer/shorter than the page, length > 128), optionally followed by a concurrent phase (2..6 goroutines); histories also contain 'age' steps (1 s .. 25 h pass without traffic: the plugin's records are aged through the verif hook prefix.VerifAge) and IA_PDs with 65..70 renewal-shaped hints followed by their retransmission. Requests are built as wire bytes and parsed by the library; every reply is checked by a validity predicate (IA_PD correspondence, in pool, aligned, page <= length <= 128, 0 < preferred <= valid <= 3600 s, NoPrefixAvail when empty) and an owner table block -> client. Non-trivial: >= 2 clients hold a prefix, or NoPrefixAvail was seen, or a hint named a block held by another client, or a concurrent phase ran. Distinct: FNV-64 of the case JSON.",
+        "rule": "rapid draws an IPv6 pool (/32../120, 1..64 [thorough ..1024] blocks; one in four written with bits set below its length), 1..4 clients (DUID-LL/LLT/EN/UUID/opaque, distinct raw ids) and a history of 1..12 [thorough ..30] messages of every supported type, direct or relayed (depth 1..2), each with 0..3 IA_PD carrying 0..3 IAPrefix hints (none, wire length 0, length-only, free block, held by self, held by another client, any block, out of pool, longer/shorter than the page, length > 128), optionally followed by a concurrent phase (2..6 goroutines); histories also contain 'age' steps (1 s .. 25 h pass without traffic: the plugin's records are aged through the verif hook prefix.VerifAge) and IA_PDs with 65..70 renewal-shaped hints followed by their retransmission; one hint in four carries lifetime fields (preferred/valid in any relation). Requests are built as wire bytes and parsed by the library; every reply is checked by a validity predicate (IA_PD correspondence, in pool, aligned, page <= length <= 128, 0 < preferred <= valid <= 3600 s, NoPrefixAvail when empty) and an owner table block -> client. Non-trivial: >= 2 clients hold a prefix, or NoPrefixAvail was seen, or a hint named a block held by another client, or a concurrent phase ran. Distinct: FNV-64 of the case JSON.",
         "assumptions": ["pools are IPv6 CIDRs as the plugin documents", "which free block a new delegation gets is not asserted", "the response stub is built as server.HandleMsg6 builds it"],
     },
     "C09": {
@@ -122,7 +122,7 @@ PROPS = {
             {"name": "TestC18Mutated", "quick": {"checks": 8000, "shards": 1}, "thorough": {"checks": 80000, "shards": 4}},
         ],
         "fuzz": [{"name": "FuzzConfigLoad", "seconds": 120}],
-        "rule": "TestC18: rapid draws a structured configuration (server4/server6 present or not; listen absent / scalar / list of 1..4 items / `interface` alias / both; items built from [address][%zone][:port] with bracketed IPv6 and optionally bracketed IPv4, v4-mapped, wrong family, garbage address, empty/garbage port, multicast with and without zone; plugins as a list of 1..5 one-key maps with 0..4 arguments from a vocabulary of IPs, CIDRs, durations, paths, URLs, MAC-bearing values, or missing / null / empty / scalar / map, or an item with two keys) and renders it to YAML in block or flow style with varying quoting, indentation, key order, comments and separators; config.Load's result is compared with the structure (plugin names, strings.Fields arguments, addresses with wildcard/default port/zone, multicast expansion from the harness's own scan of net.Interfaces). TestC18Mutated: 1..4 byte mutations (truncate, bit flip, insert, delete, duplicate line) of a valid rendering must make Load return, never panic. Thorough adds native fuzzing of arbitrary text. Non-trivial: accepted configuration with >= 2 plugins or >= 1 explicit listen item, or a configuration rejected for a listed reason; mutated text that differs from the original. Distinct: FNV-64 of the case JSON.",
+        "rule": "TestC18: rapid draws a structured configuration (server4/server6 present or not; listen absent / scalar / list of 1..4 items / `interface` alias / both; items built from [address][%zone][:port] with bracketed IPv6 and optionally bracketed IPv4, v4-mapped, wrong family, garbage address, empty/garbage port, multicast with and without zone; plugins as a list of 1..5 one-key maps with 0..4 arguments from a vocabulary of IPs, CIDRs, durations, paths, URLs, MAC-bearing values, or missing / null / empty / scalar / map, or an item with two keys) and renders it to YAML in block or flow style with varying quoting, indentation, key order, comments and separators; config.Load's result is compared with the structure (plugin names, strings.Fields arguments, addresses with wildcard/default port/zone, multicast expansion from the harness's own scan of net.Interfaces). TestC18Mutated: 1..4 byte mutations (truncate, bit flip, insert, delete, duplicate line) of a valid rendering must make Load return, never panic. Thorough adds native fuzzing of arbitrary text. Non-trivial: accepted configuration with >= 2 plugins or >= 1 explicit listen item, or a configuration rejected for a listed reason; mutated text that differs from the original. Distinct: FNV-64 of the case JSON. One section in 25 is a scalar or a list instead of a mapping (no plugins list: must be rejected).",
         "assumptions": ["plugin names are lower-case identifiers (viper folds key case); argument tokens are strings or canonical decimal integers for YAML (no floats, booleans, dates, ~)",
                         "not asserted: port ranges (99999, -5 are accepted by the code), empty listen lists/values, null protocol sections, unbracketed IPv6 literals",
                         "a listen item with more than one '%' is taken as zone = what follows the last '%' (as the code documents), so what precedes it is not an address and the item must be rejected",
@@ -133,7 +133,7 @@ PROPS = {
         "tests": [{"name": "TestC01", "quick": {"checks": 3000, "shards": 4}, "thorough": {"checks": 25000, "shards": 16}},
                   {"name": "TestC01Burst", "quick": {"checks": 500, "shards": 4}, "thorough": {"checks": 6000, "shards": 16}, "shrinktime": "10s"}],
         "fuzz": [{"name": "FuzzHandle4", "seconds": 150}, {"name": "FuzzHandle6", "seconds": 150}],
-        "rule": "rapid draws a protocol, a chain of validly configured built-in plugins (any subset in example-configuration order, or any permutation prefix; several argument variants; stateful range/prefix/file included; fresh instances per case), a bound or unbound listener, and a history of 1..12 [thorough ..24] datagrams from small pools of clients: structured DHCPv4 packets (any opcode, hlen 0..255, message type any/absent/duplicated/bad length, options 50/54/55/61/82/12/116/generic, pad, missing END, bad cookie, shuffled options) or DHCPv6 messages (any type, 0..3 IA_PD with hints of wire length 0 / length-only / pool blocks / out of pool / length > 128, IA_NA, ORO, server id own/other, rapid commit, relay depth 0..4 with interface-id/remote-id/client link-layer address, missing relay message, outer Relay-Reply), 30% byte-mutated (truncate, bit flip, overwrite, splice with the previous datagram, append, length bytes) and 10% retransmitted. Each datagram is fed through the capture listener under recover and a watchdog; oracle: no panic, returns within 20 s (a goroutine parked on a lock or channel is a wedge), at most one reply, every reply parses, and a well-formed canary request after the history still reaches the plugin chain. Non-trivial: at least one datagram of the history reached the plugin chain. Distinct: FNV-64 of the case JSON. Thorough adds coverage-guided native fuzzing of whole histories (FuzzHandle4/6). TestC01Burst: the same histories under chains that usually contain a lease plugin, followed by 2..6 copies of all their datagrams handled at once, one goroutine each as Serve does (copies come from other clients where the datagram says who the client is); same oracle, and the Go runtime's fatal checks (concurrent map access, unlock of unlocked mutex) count as a crash; not a race build.",
+        "rule": "rapid draws a protocol, a chain of validly configured built-in plugins (any subset in example-configuration order, or any permutation prefix; several argument variants; stateful range/prefix/file included; fresh instances per case), a bound or unbound listener, and a history of 1..12 [thorough ..24] datagrams from small pools of clients: structured DHCPv4 packets (any opcode, hlen 0..255, message type any/absent/duplicated/bad length, options 50/54/55/61/82/12/116/generic, pad, missing END, bad cookie, shuffled options) or DHCPv6 messages (any type, 0..3 IA_PD with hints of wire length 0 / length-only / pool blocks / out of pool / length > 128, IA_NA, ORO, server id own/other, rapid commit, relay depth 0..4 with interface-id/remote-id/client link-layer address, missing relay message, outer Relay-Reply), 30% byte-mutated (truncate, bit flip, overwrite, splice with the previous datagram, append, length bytes) and 10% retransmitted. Each datagram is fed through the capture listener under recover and a watchdog; oracle: no panic, returns within 20 s (a goroutine parked on a lock or channel is a wedge), at most one reply, every reply parses, and a well-formed canary request after the history still reaches the plugin chain. Non-trivial: at least one datagram of the history reached the plugin chain. Distinct: FNV-64 of the case JSON. Thorough adds coverage-guided native fuzzing of whole histories (FuzzHandle4/6). TestC01Burst: the same histories under chains that usually contain a lease plugin, followed by 2..6 copies of all their datagrams handled at once, one goroutine each as Serve does (copies come from other clients where the datagram says who the client is); same oracle, and the Go runtime's fatal checks (concurrent map access, unlock of unlocked mutex) count as a crash; in half of these cases a file plugin of the chain watches its lease file, which is rewritten in place every 100 us while the burst is repeated in waves for 40 ms; log.Fatal in the code under test is a panic for the harness; not a race build.",
         "assumptions": ["an unbound listener always receives interface information (listen4/listen6 enable it on unbound sockets), so (unbound, no control message) is never generated",
                         "replies are observed at the capture hook: the WriteTo call of the listener and the serialised Ethernet frame of sendEthernet; the sockets themselves are not exercised",
                         "the layer-2 path needs an interface with a 6-byte hardware address; it is looked up at run time"],
@@ -141,9 +141,10 @@ PROPS = {
     "C11": {
         "engine": "srv",
         "tests": [{"name": "TestC11", "quick": {"checks": 30000, "shards": 3, "timeout": 1200}, "thorough": {"checks": 300000, "shards": 12}, "count_free": True, "env": {"VERIF_ENUM": 1}},
-                  {"name": "TestC11Hist", "quick": {"checks": 2500, "shards": 3}, "thorough": {"checks": 25000, "shards": 8}}],
+                  {"name": "TestC11Hist", "quick": {"checks": 2500, "shards": 3}, "thorough": {"checks": 25000, "shards": 8}},
+                  {"name": "TestC11Serve", "quick": {"checks": 150, "shards": 1, "timeout": 600}, "thorough": {"checks": 3000, "shards": 4, "timeout": 3000}, "shrinktime": "5s"}],
         "fuzz": [{"name": "FuzzReply4", "seconds": 60}],
-        "rule": "every run enumerates all 256 opcodes x 257 message-type values (incl. absent) on a fixed relayed body, then rapid draws structured DHCPv4 datagrams (see C01; 20% byte-mutated) under a chain that is empty, synthetic (pass / NAK-maker / dropper) or a random stateless built-in chain, bound or unbound. Oracle: the harness classifies the datagram (library parse = definition of unparseable; opcode; message type); anything but a parseable BOOTREQUEST of type DISCOVER/REQUEST must produce no output; an output (UDP payload, or the DHCP payload decoded from the layer-2 frame) must be a BOOTREPLY with the request's xid, htype, chaddr, flags, giaddr, byte-equal options 82 and 61, OFFER for DISCOVER and ACK/NAK for REQUEST; with a chain that cannot drop exactly one output exists (UDP paths). TestC11Hist applies the same oracle to every datagram of C01-style histories under chains of built-in plugins that include the stateful ones (small ranges, static leases), so that what plugins do on rare paths (exhaustion) is covered. Non-trivial: parseable datagram (TestC11); at least one datagram of the history answered (TestC11Hist). Distinct: FNV-64 of the case JSON.",
+        "rule": "every run enumerates all 256 opcodes x 257 message-type values (incl. absent) on a fixed relayed body, then rapid draws structured DHCPv4 datagrams (see C01; 20% byte-mutated) under a chain that is empty, synthetic (pass / NAK-maker / dropper) or a random stateless built-in chain, bound or unbound. Oracle: the harness classifies the datagram (library parse = definition of unparseable; opcode; message type); anything but a parseable BOOTREQUEST of type DISCOVER/REQUEST must produce no output; an output (UDP payload, or the DHCP payload decoded from the layer-2 frame) must be a BOOTREPLY with the request's xid, htype, chaddr, flags, giaddr, byte-equal options 82 and 61, OFFER for DISCOVER and ACK/NAK for REQUEST; with a chain that cannot drop exactly one output exists (UDP paths). TestC11Hist applies the same oracle to every datagram of C01-style histories under chains of built-in plugins that include the stateful ones (small ranges, static leases), so that what plugins do on rare paths (exhaustion) is covered. Non-trivial: parseable datagram (TestC11); at least one datagram of the history answered (TestC11Hist). Distinct: FNV-64 of the case JSON. TestC11Serve: the real Serve loop on a 127.0.0.1 socket; after 0..3 datagrams too short to parse, 2..8 client sockets send 2..12 relayed DISCOVERs each back to back; every recorded reply must carry the transaction id and hardware address of exactly one request and a request sent once is answered once; non-trivial: two or more replies.",
         "assumptions": ["an unbound listener always receives interface information (listen4/listen6 enable it on unbound sockets), so (unbound, no control message) is never generated",
                         "replies are observed at the capture hook: the WriteTo call of the listener and the serialised Ethernet frame of sendEthernet; the sockets themselves are not exercised",
                         "the layer-2 path needs an interface with a 6-byte hardware address; it is looked up at run time"],
@@ -173,7 +174,7 @@ PROPS = {
         "engine": "srv",
         "tests": [{"name": "TestC15", "quick": {"checks": 20000, "shards": 2}, "thorough": {"checks": 500000, "shards": 10}, "count_free": True},
                   {"name": "TestC15Seq", "quick": {"checks": 8000, "shards": 2}, "thorough": {"checks": 200000, "shards": 8}}],
-        "rule": "every run enumerates the whole table giaddr x ciaddr in {0, 192.0.2.7, 10.10.10.200, 169.254.7.9, 255.255.255.255} x broadcast flag x DISCOVER/REQUEST x synthetic plugin action {offer an address, leave yiaddr unset, turn the reply into a NAK} x listener {bound to the interface with a 6-byte hardware address, unbound with the request arriving on it, unbound with a non-existent receiving index} (900 rows), then rapid draws the same dimensions with random addresses, yiaddr and chaddr (one in four with a hardware address of 0, 1, 5, 7, 8, 15 or 16 bytes: on the link-level row nothing needs to be sent then, but a frame to any other MAC is a violation); TestC15Seq draws sequences of 2..5 rows (biased to the link-level row) arriving on / bound to different interfaces with a 6-byte hardware address and handled by the same process, so state left by one datagram cannot leak into the next. Oracle: the statement's cascade written independently (giaddr:67, NAK broadcast, ciaddr:68, flag broadcast, else one layer-2 frame with Ethernet dst = chaddr, IPv4 dst = yiaddr, UDP 67->68, DHCP payload = the reply, on the right interface); broadcast/link-local/L2 pinned to the bound or receiving interface, routable destinations not pinned. Every row is non-trivial; distinct: FNV-64 of the case JSON.",
+        "rule": "every run enumerates the whole table giaddr x ciaddr in {0, 192.0.2.7, 10.10.10.200, 169.254.7.9, 255.255.255.255} x broadcast flag x DISCOVER/REQUEST x synthetic plugin action {offer an address, leave yiaddr unset, turn the reply into a NAK} x listener {bound to the interface with a 6-byte hardware address, unbound with the request arriving on it, unbound with a non-existent receiving index} (900 rows), then rapid draws the same dimensions with random addresses, yiaddr and chaddr (one in four with a hardware address of 0, 1, 5, 7, 8, 15 or 16 bytes: on the link-level row nothing needs to be sent then, but a frame to any other MAC is a violation; one in ten with a listener opened by the server's own listen4 for the wildcard address, an address of this host, 127.0.0.1 or 255.255.255.255, with a zone (must behave as bound) or without (unbound: pinned replies leave on the arrival interface, and the socket must report it)); TestC15Seq draws sequences of 2..5 rows (biased to the link-level row) arriving on / bound to different interfaces with a 6-byte hardware address and handled by the same process, so state left by one datagram cannot leak into the next. Oracle: the statement's cascade written independently (giaddr:67, NAK broadcast, ciaddr:68, flag broadcast, else one layer-2 frame with Ethernet dst = chaddr, IPv4 dst = yiaddr, UDP 67->68, DHCP payload = the reply, on the right interface); broadcast/link-local/L2 pinned to the bound or receiving interface, routable destinations not pinned. Every row is non-trivial; distinct: FNV-64 of the case JSON.",
         "assumptions": ["an unbound listener always receives interface information (listen4/listen6 enable it on unbound sockets), so (unbound, no control message) is never generated",
                         "replies are observed at the capture hook: the WriteTo call of the listener and the serialised Ethernet frame of sendEthernet; the sockets themselves are not exercised",
                         "the layer-2 path needs an interface with a 6-byte hardware address; it is looked up at run time"] + ["layer-2 rows use hlen 6; for other lengths the Ethernet serialiser refuses and nothing is sent, which is recorded but not asserted"],
